@@ -84,6 +84,8 @@ var (
 	cLegacyRefused = simrt.RegisterCounter("probe_rejoin_without_optneg_refused_not_judged")
 	cOddRefused    = simrt.RegisterCounter("probe_unusual_input_refused_not_judged")
 	cBusy          = simrt.RegisterCounter("op_busy_server_many_connections_and_devices")
+	fMICOtherKey   = simrt.RegisterCounter("join_request_signed_with_another_key_of_the_device_or_the_zero_key")
+	cHexTextKEK    = simrt.RegisterCounter("configuration_kek_whose_bytes_are_printable_hexadecimal_text")
 	cBare          = simrt.RegisterCounter("configuration_without_kek_label_and_home_netid_callbacks")
 	cDecoyCalled   = simrt.RegisterCounter("callback_of_another_handler_of_the_process_called")
 	cBareRefused   = simrt.RegisterCounter("configuration_without_optional_callbacks_refused_by_newhandler")
@@ -762,7 +764,7 @@ func build(sw *sim.World) {
 		if r.Intn(2) == 0 && !w.bare {
 			rec.asLabel = fmt.Sprintf("as-%d", i)
 			if r.Intn(5) != 0 {
-				w.keks[rec.asLabel] = r.Bytes([]int{16, 24, 32}[r.Intn(3)])
+				w.keks[rec.asLabel] = genKEK(r)
 			} // else: a label without a KEK in the store
 		}
 		if i > 0 && r.Intn(6) == 0 {
@@ -807,7 +809,7 @@ func build(sw *sim.World) {
 		if r.Intn(2) == 0 && !w.bare {
 			// (whether a join-server canonicalises the NetID before looking the
 			// KEK up is not defined: the store answers both spellings)
-			k := r.Bytes([]int{16, 24, 32}[r.Intn(3)])
+			k := genKEK(r)
 			w.keks[senderIDs[i]] = k
 			w.keks[netIDs[i].String()] = k
 		}
@@ -909,6 +911,19 @@ func build(sw *sim.World) {
 		sub := simrt.Raw()
 		sw.Spawn(fmt.Sprintf("ns%d", i), func() { nsTask(w, i, netIDs[i], senderIDs[i], n, sub) })
 	}
+}
+
+// genKEK: 128, 192 or 256 arbitrary bits - now and then bits that happen to
+// be printable hexadecimal text (an operator pasted a pass-phrase).
+func genKEK(r *sim.Rand) []byte {
+	k := r.Bytes([]int{16, 24, 32}[r.Intn(3)])
+	if r.Intn(6) == 0 {
+		for i := range k {
+			k[i] = "0123456789abcdefABCDEF"[r.Intn(22)]
+		}
+		simrt.Count(cHexTextKEK)
+	}
+	return k
 }
 
 func sortedKeys(m map[string][]byte) []string {
@@ -1145,7 +1160,29 @@ func nsTask(w *world, id int, netID lorawan.NetID, senderID string, n int, sub u
 			r.Fill(k[:])
 			rq.phy = rq.dev.RejoinRequest(byte(rq.kind-1), netLE, rq.nonce, k)
 		}
-		if rq.badMIC && rq.kind <= 3 {
+		if rq.badMIC && rq.kind == 0 && r.Intn(3) == 0 {
+			// a MIC that is a correct CMAC - under another key: the device's
+			// other root key (keys provisioned the wrong way round), the all-zero key
+			other := rq.dev.AppKey
+			if r.Intn(3) == 0 {
+				other = spec.Key{}
+			}
+			// (not a wrong MIC if storage may hold that key as the device's
+			// NwkKey in some generation)
+			for _, g := range rq.rec.gens {
+				if other == g.NwkKey {
+					other = rq.dev.NwkKey
+				}
+			}
+			if other != rq.dev.NwkKey {
+				msg := rq.phy[:len(rq.phy)-4]
+				mic := spec.JoinRequestMIC(other, msg)
+				copy(rq.phy[len(rq.phy)-4:], mic[:])
+				simrt.Count(fMICOtherKey)
+			} else {
+				rq.phy[len(rq.phy)-1] ^= 1
+			}
+		} else if rq.badMIC && rq.kind <= 3 {
 			if r.Intn(2) == 0 {
 				rq.phy[len(rq.phy)-1-r.Intn(4)] ^= 1 << uint(r.Intn(8))
 			} else {
